@@ -18,7 +18,7 @@ import glue_checks
 import glue_common as G
 import native
 import search_common as S
-from depccg.types import Token, ScoringResult
+from depccg.types import Token, ScoringResult, CombinatorResult
 
 PID = 'C11'
 HERE = os.path.dirname(os.path.dirname(os.path.dirname(os.path.abspath(__file__))))
@@ -118,6 +118,80 @@ class CountingGrammar(object):
     def unary(self, x):
         self.calls += 1
         return self.gram.unary(x)
+
+
+class SparseGrammar(object):
+    """L R -> P, P R -> P, nothing else; counts the distinct questions it is asked"""
+
+    def __init__(self, L, R, P):
+        self.L, self.R, self.P = L, R, P
+        self.asked = 0
+
+    def binary(self, x, y):
+        self.asked += 1
+        if y == self.R and (x == self.L or x == self.P):
+            return [CombinatorResult(cat=self.P, op_string='fa', op_symbol='>', head_is_left=True)]
+        return []
+
+    def unary(self, x):
+        self.asked += 1
+        return []
+
+
+def cache_pressure_scenario(ctx, target=300000):
+    """one long call: sentences that each have exactly one parse but many admitted junk tags, asked for
+    2 parses so that the search runs dry and asks the rule functions about every pair of adjacent
+    admitted tags; together the sentences ask about more than `target` distinct pairs (a call of the
+    size of a chunk of a few thousand real sentences). Every sentence must come back exactly as when
+    parsed alone, however large the rule cache has grown."""
+    from depccg.cat import Atom
+    rng = ctx.rng
+    parsing = native.setup()['parsing']
+    K, n, adm = 1500, 6, 48
+    cats = [Atom(f'J{i}') for i in range(K)] + [Atom('L'), Atom('R')]
+    L, R, P = cats[K], cats[K + 1], Atom('P')
+    gram = SparseGrammar(L, R, P)
+    T = len(cats)
+    per = (n - 1) * (adm + 1) ** 2 * 9 // 10        # some pairs repeat between sentences
+    m = target // per + 2
+    doc, scores = [], []
+    for si in range(m):
+        tag = numpy.full((n, T), -4000.0, dtype=numpy.float32)
+        for i in range(n):
+            for j in rng.sample(range(K), adm):
+                tag[i, j] = -float(rng.randint(64, 640)) / 64
+            tag[i, K if i == 0 else K + 1] = -float(rng.randint(0, 32)) / 64
+        dep = numpy.array([[-float(rng.randint(0, 640)) / 64 for _ in range(n + 1)] for _ in range(n)], dtype=numpy.float32)
+        doc.append([Token.of_word(f'w{si}_{i}') for i in range(n)])
+        scores.append(ScoringResult(numpy.ascontiguousarray(tag), numpy.ascontiguousarray(dep)))
+    kw = dict(unary_penalty=0.1, beta=0.0, use_beta=False, pruning_size=adm + 1, nbest=2, max_step=10000000, processes=1,
+              max_chunk_size=100000)
+    desc = {'scenario': 'cache pressure', 'sentences': m, 'categories': T, 'admitted_per_token': adm + 1}
+    try:
+        res = parsing.run(doc, scores, list(cats), [P], gram.binary, gram.unary, **kw)
+    except Exception as e:
+        ctx.fail(f'a long call ({m} sentences, {gram.asked} distinct rule questions) raised {type(e).__name__}: {e}', desc,
+                 fingerprint=['cache-pressure'])
+        return
+    ctx.evaluations += m
+    ctx.extra['cache_pressure'] = {'sentences': m, 'distinct_rule_questions': gram.asked}
+    if gram.asked < target:
+        ctx.notes.append(f'cache pressure scenario asked only {gram.asked} questions')
+    big = G.canon_results(res)
+    probe = sorted(set([0, m // 2, m - 3, m - 2, m - 1]))
+    for si in range(m):
+        if len(big[si]) != 1 or big[si][0][0] == 'FAILED':
+            ctx.fail(f'sentence {si} of a long call ({gram.asked} distinct rule questions so far in total) came back as '
+                     f'{"the failure placeholder" if big[si][0][0] == "FAILED" else str(len(big[si])) + " trees"}; alone it has exactly one parse',
+                     dict(desc, sentence=si), fingerprint=['cache-pressure'])
+            return
+    for si in probe:
+        solo = G.canon_results(parsing.run([doc[si]], [scores[si]], list(cats), [P], gram.binary, gram.unary, **kw))
+        if solo[0] != big[si]:
+            ctx.fail(f'sentence {si} of a long call differs from the same sentence parsed alone', dict(desc, sentence=si,
+                     alone=str(solo[0])[:600], in_call=str(big[si])[:600]), fingerprint=['cache-pressure'])
+            return
+    ctx.nontrivial_add(('cache-pressure', m))
 
 
 def run(ctx):
@@ -306,6 +380,7 @@ def run(ctx):
         ctx.fail('a zero-length sentence inside a batch makes the parser hang', {'batch': ['sentence', 'EMPTY', 'sentence']},
                  fingerprint=['zero-length'])
     ctx.extra['pool_runs'] = pool_runs
+    cache_pressure_scenario(ctx)
     glue_checks.full_stack_suite(ctx, ctx.budget(60, 600), batch=True)
     glue_checks.lazy_suite(ctx, ctx.budget(80, 800), batch=True)
     ctx.sample({'batch_sizes': 'sentences 2..7', 'variants': ['one call', 'permuted', 'subset', 'repeated', 'chunked']})
